@@ -14,7 +14,7 @@ import sys
 import time
 
 VERIF = os.path.dirname(os.path.dirname(os.path.abspath(__file__)))
-REPO = '/repo'
+REPO = os.environ.get('VERIF_REPO', '/repo')
 SEEDED = os.path.join(VERIF, 'seeded')
 ALL_PROPS = ['C%02d' % i for i in range(1, 21)]
 
